@@ -32,17 +32,26 @@ STATE_MEASURE = ('distinct (previous section, section written, effective '
 
 
 def gen_pipelines(rng, tier, npipes=None, big=False, pool=None, p_enc=0.4):
-    n = npipes or rng.weighted([(6, 1), (3, 2), (1, 3)])
+    deep = tier == 'thorough'
+    n = npipes or rng.weighted([(6, 1), (3, 2), (1, 3)] if not deep else
+                               [(4, 1), (3, 2), (2, 3), (1, 5)])
     actors = []
     ids = []
 
     for p in range(n):
-        main, ops = gen.gen_history(rng, pool=pool, p_enc=p_enc, big=big)
+        main, ops = gen.gen_history(rng, pool=pool, p_enc=p_enc, big=big,
+                                    max_changes=5 if deep else 3,
+                                    max_files=5 if deep else 3)
         wid = 'P%d' % (p + 1)
         rid = 'R%d' % (p + 1)
         fname = 'f%d' % (p + 1)
-        actors.append({'id': wid, 'kind': 'writer', 'file': fname,
-                       'main_encoding': main, 'ops': ops})
+        wspec = {'id': wid, 'kind': 'writer', 'file': fname,
+                 'main_encoding': main, 'ops': ops}
+
+        if main == 'utf-8' and rng.chance(0.5):
+            del wspec['main_encoding']      # the constructor's default
+
+        actors.append(wspec)
         r = {'id': rid, 'kind': 'reader', 'file': fname}
         k = rng.below(10)
 
